@@ -13,8 +13,9 @@ from schema import (HAND, schemas, emit_schema, walk, F_NOCASE, F_COMMENTS, F_MU
 HAND["c16"] = [
     o_int("i", 5, 0, CB_COMMENT), o_str("s", "string default", 0, CB_COMMENT), o_list("str", "sl", "{\"one\", two}", 0, CB_COMMENT),
     o_list("int", "il", "{1, 2, 3}"), o_float("f", "2.5"),
-    o_sec("tm", [o_int("x", 7), o_str("y", "why", 0, CB_COMMENT), o_list("str", "zl", "{p, q}"),
-                 o_sec("deep", [o_str("z", "zz"), o_list("int", "dl", "{9}"), o_sec("deepest", [o_str("w", "ww")], F_MULTI)], F_MULTI | F_TITLE)],
+    o_sec("tm", [o_int("x", 7), o_str("y", "why", 0, CB_COMMENT), o_list("str", "zl", "{p, q}"), dict(o_ptr("pq"), d="\"ptr default\""),
+                 o_sec("deep", [o_str("z", "zz"), o_list("int", "dl", "{9}"), dict(o_ptr("pw", F_LIST), d="{u, v}"),
+                                o_sec("deepest", [o_str("w", "ww"), dict(o_ptr("pz"), d="deepest_default")], F_MULTI)], F_MULTI | F_TITLE)],
           F_MULTI | F_TITLE),
     o_sec("single", [o_str("y", "single y"), o_sec("in", [o_list("str", "l", "{a}")], F_MULTI)]),
     o_sec("kv", [o_str("known", "k")], F_KEYSTRVAL | F_MULTI | F_TITLE), o_func("fn"),
@@ -44,6 +45,12 @@ OPS_POOL = [
     ["searchpath", "@", hx("/nonexistent/c16/dir")],
     ["parse_buf", "@", hx("tm a { }\ntm b { }\ntm a { x = 5 }\n")],
     ["findfile", "@", hx("c16_nofile.conf")],
+    # answers that depend on the context's own CFGF_NOCASE
+    ["parse_buf", "@", hx("TM a { X = 6 }\nI = 12\n")],
+    ["rmtsec", "@", hx("tm"), hx("A")],
+    ["gettsec", "@", hx("tm"), hx("ADDED"), 55],
+    ["getint", "@", hx("I"), 0],
+    ["addtsec", "@", hx("tm"), hx("A")],
 ]
 INST_OPS = [
     ["setint", "@", hx("tm=%s|x"), 0, hx("77")],
@@ -73,7 +80,11 @@ def bind(op, handle, inst=None):
 def strip_ptr(e):
     """trace entry without addresses / line index"""
     # errno is only meaningful where a call documents it; the executor carries it from call to call like a real program
-    return {k: v for k, v in e.items() if k not in ("i", "p", "errno")}
+    out = {k: v for k, v in e.items() if k not in ("i", "p", "errno")}
+    if "cb" in out:
+        # callback invocations without the executor's process-wide sequence number
+        out["cb"] = [{k: v for k, v in c.items() if k != "seq"} for c in out["cb"]]
+    return out
 
 
 class C16:
@@ -104,7 +115,12 @@ class C16:
             return Outcome(classes=["grey-base"], sample={"text": text[:200]})
         s = Script()
         emit_schema(s, 0, schema)
+        sum0 = s.add("schemasum", 0)
         s.add("init", 1, 0, flags)
+        s.add("init", 2, 0, flags ^ F_NOCASE)
+        s.add("parse_buf", 2, hx(text))
+        s.add("free", 2)
+        sum1 = s.add("schemasum", 0)        # creating and using a context leaves the caller's declaration untouched
         s.add("poison", 0)
         ip = s.add("parse_buf", 1, hx(text))
         idd = s.add("dump", 1)
@@ -121,6 +137,8 @@ class C16:
             d = r.death()
             fr = [f for f in r.frames() if f.startswith("cfg_")]
             fail = Failure("poison/die/%s/%s" % (d, fr[0] if fr else "?"), "after the declaration memory was freed: %s\n%s" % (d, r.stderr.decode("latin-1")[:1800]))
+        elif t[sum0]["sum"] != t[sum1]["sum"]:
+            fail = Failure("declaration-written", "cfg_init / parsing changed the caller's option declaration (checksum %s -> %s)" % (t[sum0]["sum"], t[sum1]["sum"]))
         elif exp["accept"] != (t[ip]["rc"] == 0):
             fail = Failure("poison/verdict", "text %r: model %s, rc %d" % (text, exp["accept"], t[ip]["rc"]))
         elif exp["accept"]:
@@ -151,6 +169,7 @@ class C16:
         B = [OPS_POOL[k] for k in case["b"]] if case["mode"] == "ctx" else [INST_OPS[k] for k in case["b"]]
         order = case["order"]           # string of 'a'/'b'
         flags = F_COMMENTS
+        fl = case.get("flags") or [F_COMMENTS, F_COMMENTS]      # context flags of a and b (contexts mode)
         s = Script()
         emit_schema(s, 0, HAND["c16"])
         marks = {}
@@ -167,16 +186,20 @@ class C16:
             k = s.add("getsec", 1, hx("tm=%s" % inst), 50 if who == "a" else 51)
             return s.add("dump", 50 if who == "a" else 51)
 
-        def setup():
+        def setup(name):
             s.add("newcase")
-            s.add("init", 1, 0, flags)
             if case["mode"] == "ctx":
-                s.add("init", 2, 0, flags)
+                # a solo run has its own context only: the sibling (created first, from the same declaration) must not matter
+                if name != "solo-b":
+                    s.add("init", 1, 0, fl[0])
+                if name != "solo-a":
+                    s.add("init", 2, 0, fl[1])
             else:
+                s.add("init", 1, 0, flags)
                 s.add("parse_buf", 1, hx("tm a { }\ntm b { }\n"))
 
         def run_seq(name, seq):
-            setup()
+            setup(name)
             res = []
             for who, op in seq:
                 h, inst = target(who)
@@ -186,7 +209,8 @@ class C16:
             for who in ("a", "b"):
                 h, inst = target(who)
                 if case["mode"] == "ctx":
-                    fin[who] = s.add("print", h)
+                    if name in ("mixed", "solo-" + who):
+                        fin[who] = s.add("print", h)
                 else:
                     s.add("getsec", 1, hx("tm=%s" % inst), 52)
                     fin[who] = s.add("print", 52)
@@ -300,7 +324,9 @@ class C16:
         for mode, a, b in pairs:
             for comb in itertools.combinations(range(len(a) + len(b)), len(a)):
                 order = "".join("a" if k in comb else "b" for k in range(len(a) + len(b)))
-                out.append({"kind": "interleave", "mode": mode, "a": a, "b": b, "order": order})
+                for fl in (([F_COMMENTS, F_COMMENTS],) if mode == "inst" else
+                           ([F_COMMENTS, F_COMMENTS], [F_COMMENTS | F_NOCASE, F_COMMENTS], [F_COMMENTS, F_COMMENTS | F_NOCASE])):
+                    out.append({"kind": "interleave", "mode": mode, "a": a, "b": b, "order": order, "flags": fl})
         return out
 
     def strategy(self, tier):
